@@ -81,6 +81,11 @@ MoveKidF(m, j1, k, j2) ==
   IN  [m EXCEPT !.rels[j1].kids = SelectSeq(@, LAMBDA x : x # n),
                 !.rels[j2].kids = Append(@, n),
                 !.feats[FeatIdx(m, n)].par = m.rels[j2].owner]
+\* old.relations.remove(rel); rel.parent = new; new.add_relation(rel)   (a relation moves, with its children, under another owner)
+ReOwnF(m, j, o) ==
+  LET r == [m.rels[j] EXCEPT !.owner = o, !.pp = o]
+  IN  [m EXCEPT !.rels  = Append(SubSeq(@, 1, j - 1) \o SubSeq(@, j + 1, Len(@)), r),
+                !.feats = [i \in DOMAIN @ |-> IF @[i].name \in SetOf(m.rels[j].kids) THEN [@[i] EXCEPT !.par = o] ELSE @[i]]]
 \* model.import_model(sub_root, parent, ctcs): the constraints not yet in the model are appended, in order
 \* (the library compares constraints by the text of their trees)
 RECURSIVE ImportCtcs(_, _)
